@@ -244,26 +244,34 @@ def classify (o : Oracles) (st : St) (adj : Bool) (c : Char) : St :=
   else if i.white then st
   else operator st adj c
 
+/-- top of the loop body: `next_char` (column), `previous_was_operator := false`, the `\n` bookkeeping -/
+def St.advance (st : St) (c : Char) : St :=
+  if c = '\n' then { st with line := st.line + 1, col := 0, start := 0, prevOp := false }
+  else { st with col := st.col + 1, prevOp := false }
+
+/-- a last token `--` is removed and switches the comment flag on -/
+def St.dashCheck (st : St) : St :=
+  if st.lastTok = some dashDash then { st with com := true, toks := st.toks.tail } else st
+
+/-- the string delimiter: close the open string (`add(String(..))`) or open one -/
+def quote (st : St) : St :=
+  match st.cur with
+  | some s => { st with cur := none }.add (.str s.reverse)
+  | none => { st with cur := some [] }
+
 /-- one iteration of the outer loop on character `c` (no word / number pending) -/
 def body (o : Oracles) (st : St) (c : Char) : St :=
   let adj := st.prevOp
-  let st := { st with col := st.col + 1, prevOp := false }
-  let st := if c = '\n' then { st with line := st.line + 1, col := 0, start := 0 } else st
-  let st := if st.lastTok = some dashDash then { st with com := true, toks := st.toks.tail } else st
+  let st := (st.advance c).dashCheck
   if st.com then
     if c = '\n' then { st with com := false } else st
   else if c = '\\' ∧ st.esc = false then { st with esc := true }
+  else if c = '\'' ∧ st.esc = false then quote st
   else
-    let isStringStart : Bool := decide (c = '\'') && !st.esc
     let st := { st with esc := false }
-    if isStringStart then
-      match st.cur with
-      | some s => { st with cur := none }.add (.str s.reverse)
-      | none => { st with cur := some [] }
-    else
-      match st.cur with
-      | some s => { st with cur := some (c :: s) }
-      | none => classify o st adj c
+    match st.cur with
+    | some s => { st with cur := some (c :: s) }
+    | none => classify o st adj c
 
 /-- one character: continue the pending word / number (inner loop), or end it and run the loop body -/
 def step (o : Oracles) (st : St) (c : Char) : R :=
